@@ -207,7 +207,7 @@ fn oracle_agrees<const N: usize>() {
     }
 }
 
-// @harness props=C15 panics=C15,C01 kani="--no-assertion-reach-checks" tier=quick mem=4 t=900 fn="(oracle only) kani_reader::ref_name_into vs kani_common::ref_name"
+// @harness props=C15 panics=C15,C01 kani="--no-assertion-reach-checks" tier=quick mem=6 t=900 fn="(oracle only) kani_reader::ref_name_into vs kani_common::ref_name"
 //   bound="every buffer of exactly 5 octets, every start offset 0..=6; unwind 16 (chunks reached through pointers may overlap, so a decoded name can be longer than the buffer)"
 //   sym="buf:[u8;5], start<=6"
 #[kani::proof]
@@ -216,7 +216,7 @@ fn c15_oracle_agrees_with_common5() {
     oracle_agrees::<5>();
 }
 
-// @harness props=C15 panics=C15,C01 kani="--no-assertion-reach-checks" tier=thorough mem=8 t=1800 fn="(oracle only) kani_reader::ref_name_into vs kani_common::ref_name"
+// @harness props=C15 panics=C15,C01 kani="--no-assertion-reach-checks" tier=thorough mem=10 t=1800 fn="(oracle only) kani_reader::ref_name_into vs kani_common::ref_name"
 //   bound="every buffer of exactly 6 octets, every start offset 0..=7; unwind 20 ([4,1,x,0xc0,0,0] from offset 1 decodes to 8 octets)"
 //   sym="buf:[u8;6], start<=7"
 #[kani::proof]
@@ -300,7 +300,7 @@ fn skip_question_any<const NMAX: usize>() {
     }
 }
 
-// @harness props=C15 panics=C15,C01 kani="--no-assertion-reach-checks" tier=quick mem=3 t=600 fn="Reader::skip_question"
+// @harness props=C15 panics=C15,C01 kani="--no-assertion-reach-checks" tier=quick mem=2 t=600 fn="Reader::skip_question"
 //   bound="every message of every length 12..=24, all octets symbolic, read position 12; unwind 14"
 //   sym="buf:[u8;24], len in 12..=24"
 #[kani::proof]
@@ -419,7 +419,7 @@ fn rr_any<const NMAX: usize>(peek: bool, then: u8) {
     kani::cover!(!o.ok && !o.late_err && len == 12, "record requested exactly at the end of the message: refused");
 }
 
-// @harness props=C15 panics=C15,C01 kani="--no-assertion-reach-checks" tier=quick mem=3 t=900 fn="Reader::skip_rr"
+// @harness props=C15 panics=C15,C01 kani="--no-assertion-reach-checks" tier=quick mem=2 t=900 fn="Reader::skip_rr"
 //   bound="every message of every length 12..=28, all octets symbolic, read position 12; unwind 18"
 //   sym="buf:[u8;28], len in 12..=28"
 #[kani::proof]
@@ -428,7 +428,7 @@ fn c15_skip_rr_any28() {
     rr_any::<28>(false, DROP);
 }
 
-// @harness props=C15 panics=C15,C01 kani="--no-assertion-reach-checks" tier=quick mem=3 t=900
+// @harness props=C15 panics=C15,C01 kani="--no-assertion-reach-checks" tier=quick mem=2 t=900
 //   fn="Reader::peek_rr,PeekRr::rr_type,PeekRr::class,PeekRr::ttl,PeekRr::rdlength,PeekRr::message_to_rr,drop(PeekRr)"
 //   bound="every message of every length 12..=28, all octets symbolic, read position 12; unwind 18"
 //   sym="buf:[u8;28], len in 12..=28"
@@ -438,7 +438,7 @@ fn c15_peek_rr_drop_any28() {
     rr_any::<28>(true, DROP);
 }
 
-// @harness props=C15 panics=C15,C01 kani="--no-assertion-reach-checks" tier=quick mem=3 t=900
+// @harness props=C15 panics=C15,C01 kani="--no-assertion-reach-checks" tier=quick mem=2 t=900
 //   fn="Reader::peek_rr,PeekRr::rr_type,PeekRr::class,PeekRr::ttl,PeekRr::rdlength,PeekRr::message_to_rr,PeekRr::skip"
 //   bound="every message of every length 12..=28, all octets symbolic, read position 12; unwind 18"
 //   sym="buf:[u8;28], len in 12..=28"
@@ -448,7 +448,7 @@ fn c15_peek_rr_skip_any28() {
     rr_any::<28>(true, SKIP);
 }
 
-// @harness props=C15 panics=C15,C01 kani="--no-assertion-reach-checks" tier=thorough mem=4 t=1800 fn="Reader::skip_question"
+// @harness props=C15 panics=C15,C01 kani="--no-assertion-reach-checks" tier=thorough mem=3 t=1800 fn="Reader::skip_question"
 //   bound="every message of every length 12..=48, all octets symbolic, read position 12; unwind 38"
 //   sym="buf:[u8;48], len in 12..=48"
 #[kani::proof]
@@ -457,7 +457,7 @@ fn c15_skip_question_any48() {
     skip_question_any::<48>();
 }
 
-// @harness props=C15 panics=C15,C01 kani="--no-assertion-reach-checks" tier=thorough mem=4 t=1800 fn="Reader::skip_rr"
+// @harness props=C15 panics=C15,C01 kani="--no-assertion-reach-checks" tier=thorough mem=3 t=1800 fn="Reader::skip_rr"
 //   bound="every message of every length 12..=48, all octets symbolic, read position 12; unwind 38"
 //   sym="buf:[u8;48], len in 12..=48"
 #[kani::proof]
@@ -466,7 +466,7 @@ fn c15_skip_rr_any48() {
     rr_any::<48>(false, DROP);
 }
 
-// @harness props=C15 panics=C15,C01 kani="--no-assertion-reach-checks" tier=thorough mem=4 t=1800
+// @harness props=C15 panics=C15,C01 kani="--no-assertion-reach-checks" tier=thorough mem=3 t=1800
 //   fn="Reader::peek_rr,PeekRr::rr_type,PeekRr::class,PeekRr::ttl,PeekRr::rdlength,PeekRr::message_to_rr,PeekRr::skip"
 //   bound="every message of every length 12..=48, all octets symbolic, read position 12; unwind 38"
 //   sym="buf:[u8;48], len in 12..=48"
@@ -797,7 +797,7 @@ fn read_rr_cut(op: u8, layout: u8, msg: &[u8]) -> Out {
 
 // ---- questions ---------------------------------------------------------------
 
-// @harness props=C15 panics=C15,C01 kani="--no-assertion-reach-checks" tier=quick mem=4 t=900 fn="Reader::read_question,Name::try_from_compressed"
+// @harness props=C15 panics=C15,C01 kani="--no-assertion-reach-checks" tier=quick mem=3 t=900 fn="Reader::read_question,Name::try_from_compressed"
 //   bound="(1) 12 symbolic header octets + QNAME [1,a,0] + 4 symbolic QTYPE/QCLASS octets, cut at each length 12..=19; (2) header [1,x,0,..] + QNAME [1,a,0xc0,0] (pointer into the header) + 4 symbolic octets, cut at each length 13..=20; (3) root QNAME cut at 13..=17; (4) QNAMEs [0xc0,12] (self pointer), [0xc0,14] (forward), [0x40], [0x80] (reserved label types); a, x symbolic; unwind 6"
 //   stubs="S7" sym="h:[u8;12], a, x, t0, t1, c0, c1"
 #[kani::proof]
@@ -931,7 +931,7 @@ fn c15_read_rr_opaque_sk() {
 // PeekRr's stored offsets stop being constants for CBMC, TYPE becomes
 // symbolic and Rdata::read is explored for every type (measured: no result in
 // 15 min).  RDLENGTH is therefore concrete here and varied call by call.
-// @harness props=C15 panics=C15,C01 kani="--no-assertion-reach-checks" tier=quick mem=4 t=900 fn="Reader::peek_rr,PeekRr::parse,PeekRr::take_owner,Rdata::read"
+// @harness props=C15 panics=C15,C01 kani="--no-assertion-reach-checks" tier=quick mem=3 t=900 fn="Reader::peek_rr,PeekRr::parse,PeekRr::take_owner,Rdata::read"
 //   bound="12 symbolic header octets + root owner + TYPE 65280 (private use) + symbolic CLASS, TTL + RDLENGTH r + 3 symbolic RDATA octets: r = 3 on the message cut at 12, 13, 16, 20, 21, 22, 23, 25, 26; r in {0, 1, 2, 4, 259} on the whole 26-octet message; unwind 6"
 //   stubs="S7" sym="h:[u8;12], class, ttl, rdata:[u8;3]"
 #[kani::proof]
@@ -1018,7 +1018,7 @@ fn ns_all(op: u8) -> bool {
         && c29.to_eom
 }
 
-// @harness props=C15 panics=C15,C01 kani="--no-assertion-reach-checks" tier=quick mem=4 t=900 fn="Reader::read_rr,Rdata::read,helpers::read_name_rdata,Name::try_from_compressed"
+// @harness props=C15 panics=C15,C01 kani="--no-assertion-reach-checks" tier=quick mem=3 t=900 fn="Reader::read_rr,Rdata::read,helpers::read_name_rdata,Name::try_from_compressed"
 //   bound="12 symbolic header octets + owner [1,a,0] + TYPE NS + symbolic CLASS, TTL + RDLENGTH r + RDATA [1,b,0xc0,12] + 2 symbolic octets: r = 0..=7 on the whole 31-octet message, r = 4 on the message cut at 25, 27, 28, 29; a, b symbolic; unwind 7"
 //   stubs="S7" sym="h:[u8;12], a, b, class, ttl, 2 trailing octets"
 #[kani::proof]
@@ -1087,7 +1087,7 @@ fn mx_all(op: u8) -> bool {
         && c31.to_eom
 }
 
-// @harness props=C15 panics=C15,C01 kani="--no-assertion-reach-checks" tier=quick mem=4 t=900 fn="Reader::read_rr,Rdata::read,Rdata::read_mx,Name::try_from_compressed"
+// @harness props=C15 panics=C15,C01 kani="--no-assertion-reach-checks" tier=quick mem=3 t=900 fn="Reader::read_rr,Rdata::read,Rdata::read_mx,Name::try_from_compressed"
 //   bound="12 symbolic header octets + owner [1,a,0] + TYPE MX + symbolic CLASS, TTL + RDLENGTH r + RDATA [p0,p1,1,b,0xc0,12] + 1 symbolic octet: r in {0,1,2,3,5,6,7,8} on the whole 32-octet message (8 reaches past the end), r = 6 on the message cut at 27, 30, 31; unwind 9"
 //   stubs="S7" sym="h:[u8;12], a, b, class, ttl, preference, trailing octet"
 #[kani::proof]
@@ -1122,7 +1122,7 @@ macro_rules! a_msg {
     };
 }
 
-// @harness props=C15 panics=C15,C01 kani="--no-assertion-reach-checks" tier=quick mem=4 t=900 fn="Reader::read_rr,Rdata::read,Rdata::validate_as_in_a,Rdata::read_ch_a"
+// @harness props=C15 panics=C15,C01 kani="--no-assertion-reach-checks" tier=quick mem=5 t=900 fn="Reader::read_rr,Rdata::read,Rdata::validate_as_in_a,Rdata::read_ch_a"
 //   bound="12 symbolic header octets + root owner + TYPE A + CLASS c + symbolic TTL + RDLENGTH + RDATA [0,x,y,z]: c = IN and c = 2 with all 65536 RDLENGTH values, message cut at 26 and 27; c = CH with RDLENGTH 2, 3, 4 on the 27-octet message and 3 on the message cut at 25, 26; unwind 6"
 //   stubs="S7" sym="h:[u8;12], ttl, rdlength (IN and class 2), x, y, z"
 #[kani::proof]
@@ -1170,7 +1170,7 @@ macro_rules! ns3_msg {
 
 // (Measured: with the NS label-length octet symbolic instead of the five
 // concrete values below, symbolic execution did not finish in 10 min.)
-// @harness props=C15 panics=C15,C01 kani="--no-assertion-reach-checks" tier=quick mem=3 t=900 fn="Reader::read_rr,Reader::peek_rr,PeekRr::parse,Rdata::read,Rdata::validate_as_in_a,helpers::read_name_rdata"
+// @harness props=C15 panics=C15,C01 kani="--no-assertion-reach-checks" tier=quick mem=4 t=900 fn="Reader::read_rr,Reader::peek_rr,PeekRr::parse,Rdata::read,Rdata::validate_as_in_a,helpers::read_name_rdata"
 //   bound="12 symbolic header octets + root owner + CLASS IN + symbolic TTL: (1) TYPE A, RDLENGTH 3 and 5, 5 symbolic RDATA octets present (28 octets); (2) TYPE NS, RDLENGTH 3, RDATA [L,x,0] with L in {0 (root + junk), 1 (valid), 2 (label runs off the end), 0x40 (reserved label type)} and x symbolic, or [0xc0,12,0] (pointer to the owner + junk) (26 octets); read_rr and peek_rr+parse on each; unwind 6"
 //   stubs="S7" sym="h:[u8;12], ttl, rdata:[u8;5] / x"
 #[kani::proof]
@@ -1225,7 +1225,7 @@ fn bad_owner(op: u8) -> bool {
     !o1.ok && !o2.ok
 }
 
-// @harness props=C15 panics=C15,C01 kani="--no-assertion-reach-checks" tier=quick mem=6 t=1200 fn="Reader::read_rr,Reader::peek_rr,PeekRr::owner,PeekRr::parse,PeekRr::take_owner,PeekRr::parse_owner"
+// @harness props=C15 panics=C15,C01 kani="--no-assertion-reach-checks" tier=quick mem=3 t=1200 fn="Reader::read_rr,Reader::peek_rr,PeekRr::owner,PeekRr::parse,PeekRr::take_owner,PeekRr::parse_owner"
 //   bound="two 25/27-octet messages whose record frame is complete but whose owner is [0xc0,12] (points at itself) or [1,x,0xc0,16] (points forward); read_rr, peek+parse, peek+owner, peek+owner+parse on each; unwind 6"
 //   stubs="S7" sym="h:[u8;12], class, ttl, rdata octet, x"
 #[kani::proof]
@@ -1255,7 +1255,7 @@ macro_rules! three_items {
     };
 }
 
-// @harness props=C15 panics=C15,C01 kani="--no-assertion-reach-checks" tier=quick mem=6 t=1200 fn="Reader::read_question,Reader::read_rr,Reader::at_eom,Rdata::read"
+// @harness props=C15 panics=C15,C01 kani="--no-assertion-reach-checks" tier=quick mem=3 t=1200 fn="Reader::read_question,Reader::read_rr,Reader::at_eom,Rdata::read"
 //   bound="one 51-octet message: question a., NS record (owner -> QNAME, NSDNAME b.<QNAME>), MX record (owner and exchange -> NSDNAME); label contents, QTYPE/QCLASS, CLASS, TTL, preference symbolic; read_question, read_rr, read_rr, then read_rr at the end of the message; unwind 9"
 //   stubs="S7" sym="h:[u8;12], d:[u8;20]"
 #[kani::proof]
@@ -1278,7 +1278,7 @@ fn c15_seq_read_all() {
     );
 }
 
-// @harness props=C15 panics=C15,C01 kani="--no-assertion-reach-checks" tier=quick mem=6 t=1200 fn="Reader::mark,Reader::rewind,Reader::skip_question,Reader::peek_rr,PeekRr::parse,PeekRr::owner,Reader::skip_rr"
+// @harness props=C15 panics=C15,C01 kani="--no-assertion-reach-checks" tier=quick mem=3 t=1200 fn="Reader::mark,Reader::rewind,Reader::skip_question,Reader::peek_rr,PeekRr::parse,PeekRr::owner,Reader::skip_rr"
 //   bound="the 51-octet message of c15_seq_read_all; mark, read_question, rewind, skip_question, peek+parse (NS), peek+owner+owner+parse (MX), skip_rr at the end of the message; unwind 9"
 //   stubs="S7" sym="h:[u8;12], d:[u8;20]"
 #[kani::proof]
@@ -1305,7 +1305,7 @@ fn c15_seq_peek_parse() {
     );
 }
 
-// @harness props=C15 panics=C15,C01 kani="--no-assertion-reach-checks" tier=quick mem=6 t=1200 fn="Reader::skip_question,Reader::skip_rr,Reader::peek_rr,PeekRr::owner,PeekRr::skip"
+// @harness props=C15 panics=C15,C01 kani="--no-assertion-reach-checks" tier=quick mem=3 t=1200 fn="Reader::skip_question,Reader::skip_rr,Reader::peek_rr,PeekRr::owner,PeekRr::skip"
 //   bound="the 51-octet message of c15_seq_read_all; skip_question, peek+owner+drop, skip_rr, peek+skip, peek_rr at the end of the message; unwind 9"
 //   stubs="S7" sym="h:[u8;12], d:[u8;20]"
 #[kani::proof]
@@ -1348,7 +1348,7 @@ macro_rules! soa_msg {
     };
 }
 
-// @harness props=C15 panics=C15,C01 kani="--no-assertion-reach-checks" tier=thorough mem=6 t=1200 fn="Reader::read_rr,Rdata::read,Rdata::read_soa"
+// @harness props=C15 panics=C15,C01 kani="--no-assertion-reach-checks" tier=thorough mem=4 t=1200 fn="Reader::read_rr,Rdata::read,Rdata::read_soa"
 //   bound="12 symbolic header octets + owner [1,a,0] + TYPE SOA + symbolic CLASS, TTL + RDLENGTH r + RDATA [0xc0,12 | 1,b,0xc0,12 | 20 symbolic octets] + 1 symbolic octet: r in {2, 6, 25, 26, 27} on the whole 52-octet message, r = 26 on the message cut at 50, 51; unwind 30"
 //   stubs="S7" sym="h:[u8;12], a, b, class, ttl, 20 octets, trailing octet"
 #[kani::proof]
@@ -1375,20 +1375,23 @@ fn c15_read_rr_soa_sk() {
 
 // ---- symbolic name structure (thorough) ----------------------------------------------------------
 
-// @harness props=C15 panics=C15,C01 kani="--no-assertion-reach-checks" tier=thorough mem=10 t=3000 fn="Reader::read_question,Name::try_from_compressed"
-//   bound="every 17-octet message whose 12 header octets are zero (a pointer into the header reaches a root label) and whose 5 body octets are symbolic: every QNAME structure that fits 5 octets; unwind 8"
-//   stubs="S7" sym="body:[u8;5]"
+// @harness props=C15 panics=C15,C01 kani="--no-assertion-reach-checks" tier=thorough mem=8 t=2400 fn="Reader::read_question,Name::try_from_compressed"
+//   bound="every 19-octet message with zero header (a pointer into it reaches a root label), 3 symbolic octets where the QNAME starts, then [0,1,0,1]: every QNAME structure the 3 octets can start (root, label of 1 or 2, longer label, pointer, reserved types), QTYPE/QCLASS present or cut short accordingly; unwind 8"
+//   stubs="S7" sym="s:[u8;3]"
 #[kani::proof]
 #[kani::unwind(8)]
 #[kani::stub(arrayvec::ArrayVec::try_extend_from_slice, try_extend_model)]
-fn c15_read_question_body5() {
-    let d: [u8; 5] = kani::any();
-    let b = [0, 0, 0, 0, 0, 0, 0, 0, 0, 0, 0, 0, d[0], d[1], d[2], d[3], d[4]];
+fn c15_read_question_sym3() {
+    let s: [u8; 3] = kani::any();
+    let b = [0, 0, 0, 0, 0, 0, 0, 0, 0, 0, 0, 0, s[0], s[1], s[2], 0, 1, 0, 1];
     let o = read_question_cut(&b);
-    kani::cover!(o.ok && o.to_eom, "root question read");
-    kani::cover!(o.late_err, "QNAME decodes, QTYPE/QCLASS do not fit");
+    kani::cover!(o.ok && o.to_eom && !o.name_ptr, "one-label question ending at the end of the message read");
+    kani::cover!(o.ok && o.name_ptr, "question whose QNAME is a pointer into the header read");
+    kani::cover!(o.late_err, "QNAME decodes, QCLASS does not fit");
 }
 
+// (A 17-octet message with 5 symbolic body octets ran CBMC out of memory after
+// 600 s of symbolic execution, 2.5 M steps.)
 // Not here: PeekRr::owner / read_rr on an owner with symbolic structure.  A
 // harness with 3 symbolic owner octets in front of concrete fixed fields
 // (peek_rr, owner(), drop) was still in symbolic execution after 43 min at
